@@ -754,6 +754,8 @@ pub mod packed {
 
     pub struct PackedDesc {
         pub name: &'static str,
+        /// how many of the four plan bytes this form carries
+        pub used: usize,
         /// as_uint into the recording peer: (token, the integer `cast::into_uint` gives)
         pub record: fn(&[u8; 4], &Peer) -> Result<(Tok, u64), SimError>,
         /// as_uint round trip through the replaying peer: the unpacked channels
@@ -765,6 +767,7 @@ pub mod packed {
         ($id:ident, $name:literal, $order:ty) => {
             pub static $id: PackedDesc = PackedDesc {
                 name: $name,
+                used: 4,
                 record: |c, peer| {
                     let p: Packed<$order, u32> = Srgba::new(c[0], c[1], c[2], c[3]).into();
                     let t = palette::serde::serialize_as_uint(&p, Rec { peer })?;
@@ -793,8 +796,63 @@ pub mod packed {
     packed_case!(BGRA, "PackedBgra", channels::Bgra);
     packed_case!(ABGR, "PackedAbgr", channels::Abgr);
 
+    // the other types with an unsigned-integer form: luma with alpha packed into u16 in both orders, and
+    // integer luma of every width a token can carry (the helpers are generic over `UintCast`)
+    macro_rules! uint_case {
+        ($id:ident, $name:literal, $used:literal, $ty:ty, |$c:ident| $build:expr, |$p:ident| $unbuild:expr) => {
+            pub static $id: PackedDesc = PackedDesc {
+                name: $name,
+                used: $used,
+                record: |$c, peer| {
+                    let p: $ty = $build;
+                    let t = palette::serde::serialize_as_uint(&p, Rec { peer })?;
+                    Ok((t, cast::into_uint(p) as u64))
+                },
+                replay: |tok, pres, peer| {
+                    let $p: $ty = palette::serde::deserialize_as_uint(Replay { tok, pres, peer, top: false })?;
+                    $unbuild
+                },
+                json: |$c| {
+                    let p: $ty = $build;
+                    let mut out = Vec::new();
+                    palette::serde::serialize_as_uint(&p, &mut serde_json::Serializer::new(&mut out)).map_err(|e| e.to_string())?;
+                    let text = String::from_utf8(out).map_err(|e| e.to_string())?;
+                    let mut de = serde_json::Deserializer::from_str(&text);
+                    let $p: $ty = palette::serde::deserialize_as_uint(&mut de).map_err(|e| e.to_string())?;
+                    let back: Result<[u8; 4], SimError> = $unbuild;
+                    Ok((text, back.map_err(|e| e.0)?))
+                },
+            };
+        };
+    }
+    use palette::luma::channels::{Al, La};
+    use palette::{SrgbLuma, SrgbLumaa};
+    fn unpack_la<O>(p: Packed<O, u16>) -> Result<[u8; 4], SimError>
+    where
+        SrgbLumaa<u8>: From<Packed<O, u16>>,
+    {
+        let c: SrgbLumaa<u8> = p.into();
+        Ok([c.luma, c.alpha, 0, 0])
+    }
+    uint_case!(LA, "PackedLumaa(La)", 2, Packed<La, u16>, |c| SrgbLumaa::new(c[0], c[1]).into(), |p| unpack_la(p));
+    uint_case!(AL, "PackedLumaa(Al)", 2, Packed<Al, u16>, |c| SrgbLumaa::new(c[0], c[1]).into(), |p| unpack_la(p));
+    uint_case!(LUMA8, "Luma<u8>", 1, SrgbLuma<u8>, |c| SrgbLuma::new(c[0]), |p| Ok([p.luma, 0, 0, 0]));
+    uint_case!(LUMA16, "Luma<u16>", 2, SrgbLuma<u16>, |c| SrgbLuma::new(u16::from_be_bytes([c[0], c[1]])), |p| {
+        let b = p.luma.to_be_bytes();
+        Ok([b[0], b[1], 0, 0])
+    });
+    uint_case!(LUMA32, "Luma<u32>", 4, SrgbLuma<u32>, |c| SrgbLuma::new(u32::from_be_bytes(*c)), |p| Ok(p.luma.to_be_bytes()));
+    uint_case!(LUMA64, "Luma<u64>", 4, SrgbLuma<u64>, |c| SrgbLuma::new(u32::from_be_bytes(*c) as u64 * 0x1_0000_0001), |p| {
+        // both halves carry the same four bytes
+        if (p.luma >> 32) as u32 != p.luma as u32 {
+            Err(SimError(format!("Luma<u64> came back as {:#x}: the two halves differ", p.luma)))
+        } else {
+            Ok((p.luma as u32).to_be_bytes())
+        }
+    });
+
     pub fn all() -> Vec<&'static PackedDesc> {
-        vec![&RGBA, &ARGB, &BGRA, &ABGR]
+        vec![&RGBA, &ARGB, &BGRA, &ABGR, &LA, &AL, &LUMA8, &LUMA16, &LUMA32, &LUMA64]
     }
 }
 
